@@ -344,4 +344,335 @@ def c19(ctx):
                            "exact rational within 1e-9 relative; strict monotonicity of the float result is not claimed")
 
 
-TABLE = {"C06": c06, "C19": c19}
+# ----------------------------------------------------------------------------------------
+# C14 / C15: observations
+
+
+FACTORIES = ["BinaryActionObservationFactory", "SimpleJsspObservationFactory", "BinaryOperationArrayObservation",
+             "TasselJsspObservation"]
+
+
+def _qs(text):
+    """'(n d)' pairs of a model answer -> Fractions"""
+    import sxdiff
+    return sxdiff.parse(text)
+
+
+def _f32(fr):
+    import numpy as np
+    return np.float32(float(fr))
+
+
+def labels_sx(codec):
+    return "(" + " ".join("((%s %d) %d)" % (k, n, int(bid.split("-")[1])) for bid, (k, n) in codec.bid.items()
+                          if bid.split("-")[1].isdigit()) + ")"
+
+
+def spec_reading(env):
+    """Independent reading of the state for the SimpleJssp fields, indexed by job / machine NUMBER."""
+    from jobshoplab.types.state_types import MachineStateState as MS
+    from jobshoplab.types.state_types import OperationStateState as OS
+    from jobshoplab.utils.utils import get_id_int
+    s = env.state.state
+    nj, nm = len(s.jobs), len(s.machines)
+    jr, av, jp = [0] * nj, [0] * nj, [0] * nj
+    ex = [[0] * nm for _ in range(nj)]
+    for j in s.jobs:
+        k = get_id_int(j.id)
+        sts = [o.operation_state_state for o in j.operations]
+        jr[k] = int(OS.PROCESSING in sts)
+        av[k] = int(OS.IDLE in sts and OS.PROCESSING not in sts)
+        jp[k] = sum(1 for x in sts if x == OS.DONE)
+        for o in j.operations:
+            if o.operation_state_state == OS.DONE:
+                ex[k][get_id_int(o.machine_id)] = 1
+    mr, mp = [0] * nm, [0] * nm
+    for m in s.machines:
+        k = get_id_int(m.id)
+        mr[k] = int(m.state == MS.WORKING)
+        mp[k] = sum(1 for j in s.jobs for o in j.operations if o.machine_id == m.id and o.operation_state_state == OS.DONE)
+    return {"job_running": jr, "job_executed_on_machine": ex, "job_progression": jp, "machine_running": mr,
+            "machine_progression": mp, "available_jobs": av}
+
+
+def exact_in_space(space, obs):
+    """Fields whose exact values (before any dtype cast) are outside [low, high], have the wrong shape, or are
+    fractional in an integer Box."""
+    import numpy as np
+    import gymnasium as gym
+    bad = []
+    if set(space.spaces.keys()) != set(obs.keys()):
+        return ["<keys>"]
+    for k, sp in space.spaces.items():
+        v = np.asarray(obs[k], dtype=np.float64)
+        if isinstance(sp, gym.spaces.MultiBinary):
+            if v.shape != sp.shape or not np.all((v == 0) | (v == 1)):
+                bad.append(k)
+            continue
+        if v.shape != sp.shape:
+            bad.append(k + ":shape")
+            continue
+        if np.any(v < sp.low.astype(np.float64)) or np.any(v > sp.high.astype(np.float64)):
+            bad.append(k)
+        elif np.issubdtype(sp.dtype, np.integer) and np.any(v != np.floor(v)):
+            bad.append(k + ":fractional")
+    return bad
+
+
+def _obs_worker(args):
+    seed, n, big, prop = args
+    import numpy as np
+    import batch
+    import trace
+    import sxdiff
+    from jobshoplab.utils.exceptions import ActionOutOfActionSpace, EnvDone
+    rng = random.Random(seed)
+    drv = jsl.Driver()
+    base = jsl.load_config()
+    out = {"steps": 0, "episodes": 0, "violations": [], "disagreements": [], "samples": [],
+           "by_factory": collections.Counter(), "sizes": collections.Counter(), "bad_actions": 0, "resets": 0,
+           "offer_sets": 0, "compared_fields": 0, "ends": collections.Counter()}
+    for k in range(n):
+        fac = FACTORIES[k % len(FACTORIES)] if prop == "C14" else FACTORIES[k % 3]
+        if big and rng.random() < 0.5:
+            nj, nm = rng.randint(10, 14), rng.randint(2, 12)
+            d, feats = gen.gen_instance(rng, rng.choice(["classic", "transport"]), nj=nj, nm=nm)
+        else:
+            d, feats = gen.gen_instance(rng, rng.choice(["classic", "transport", "buffers", "full"]))
+        cfg = jsl.with_cfg(base, early=True, trunc_active=(rng.random() < 0.3), joker=2, obs=fac)
+        pol = gen.Policy(random.Random(rng.randrange(1 << 30)), rng.choice([0.5, 0.8, 1.0]),
+                         bad_p=(0.05 if prop == "C14" else 0.0))
+        st = {}
+
+        def check_obs(env, obs, done, where):
+            codec = st["codec"]
+            space = env.observation_space
+            try:
+                inside = bool(space.contains(obs))
+            except Exception as e:  # noqa
+                inside = False
+            bad = exact_in_space(space, obs)
+            if (not inside) or bad:
+                out["violations"].append({"kind": "obs:not_in_space", "detail": "%s: %s: contains=%s, exact-bound failures %s"
+                                          % (fac, where, inside, bad), "replay": {"dsl": d, "factory": fac, "where": where},
+                                          "facts": {"factory": fac, "fields": sorted(set(b.split(":")[0] for b in bad))}})
+            if fac == "TasselJsspObservation":
+                return
+            drv.set_codec(codec)
+            sx_state = codec.state(env.state.state)
+            offers = codec.transitions(env.state.possible_transitions)
+            if fac in ("BinaryActionObservationFactory", "SimpleJsspObservationFactory"):
+                m = drv.ask("OB %d %s %s %d" % (st["tmax"], sx_state, offers, int(done)))
+                parts = sxdiff.parse("(" + m + ")")
+                simple, ct = parts[0], parts[1]
+                if simple[0] != "simple":
+                    out["disagreements"].append({"where": "make_simple raised", "replay": {"model": m}})
+                    return
+                names = ["job_running", "job_executed_on_machine", "job_progression", "machine_running",
+                         "machine_progression", "available_jobs"]
+                spec = spec_reading(env)
+                for nme, mv in zip(names, simple[1:7]):
+                    iv = np.asarray(obs[nme]).astype(int).tolist()
+                    mv2 = [[int(z) for z in r] for r in mv] if nme == "job_executed_on_machine" else [int(z) for z in mv]
+                    out["compared_fields"] += 1
+                    if iv != mv2:
+                        out["disagreements"].append({"where": "observation field " + nme, "replay": {
+                            "dsl": d, "impl": iv, "model": mv2}})
+                    if iv != spec[nme]:
+                        out["violations"].append({"kind": "obs:not_faithful", "detail": "%s differs from the independent "
+                                                  "reading of the state: %s vs %s" % (nme, iv, spec[nme]),
+                                                  "replay": {"dsl": d, "factory": fac}, "facts": {"field": nme}})
+                tq = Fraction(int(simple[7][0]), int(simple[7][1]))
+                if _f32(tq) != np.float32(obs["current_time"][0]):
+                    out["disagreements"].append({"where": "current_time", "replay": {"impl": float(obs["current_time"][0]),
+                                                                                     "model": str(tq)}})
+                if simple[8] != "1":
+                    out["violations"].append({"kind": "obs:model_int_fields_out_of_space", "detail": "model says integer "
+                                              "fields are outside the declared space", "replay": {"dsl": d}})
+                if fac == "BinaryActionObservationFactory":
+                    if ct[0] != "ct":
+                        out["disagreements"].append({"where": "current_transition raised", "replay": {"model": m}})
+                    else:
+                        mv = [_f32(Fraction(int(q[0]), int(q[1]))) for q in ct[1:4]]
+                        iv = [np.float32(v) for v in obs["current_transition"]]
+                        if mv != iv:
+                            out["disagreements"].append({"where": "current_transition", "replay": {
+                                "impl": [float(v) for v in iv], "model": [float(v) for v in mv]}})
+            elif fac == "BinaryOperationArrayObservation":
+                m = drv.ask("OA %s %s" % (st["labels"], sx_state))
+                p = sxdiff.parse(m)
+                if p[0] != "oa":
+                    out["disagreements"].append({"where": "make_oparray raised", "replay": {"model": m}})
+                    return
+                mo = [_f32(Fraction(int(q[0]), int(q[1]))) for q in p[1]]
+                ml = [_f32(Fraction(int(q[0]), int(q[1]))) for q in p[2]]
+                io = [np.float32(v) for v in np.asarray(obs["operation_state"]).reshape(-1)]
+                il = [np.float32(v) for v in np.asarray(obs["job_locations"]).reshape(-1)]
+                out["compared_fields"] += 2
+                if mo != io or ml != il:
+                    out["disagreements"].append({"where": "operation array", "replay": {
+                        "impl": [[float(v) for v in io], [float(v) for v in il]],
+                        "model": [[float(v) for v in mo], [float(v) for v in ml]]}})
+            # offers must be distinguishable
+            if fac in ("BinaryActionObservationFactory", "BinaryOperationArrayObservation") and not done:
+                offs = list(env.state.possible_transitions)
+                if len(offs) > 1:
+                    out["offer_sets"] += 1
+                    f = env.state_simulator.observation_factory
+                    encs = {}
+                    import dataclasses as dc
+                    for t in offs:
+                        o2 = f.make(dc.replace(env.state, possible_transitions=(t,)), False)
+                        key = tuple(np.float32(v).tobytes() for v in o2["current_transition"])
+                        if key in encs and encs[key] != t:
+                            out["violations"].append({"kind": "obs:offers_collide", "detail": "two different offers have "
+                                                      "the same encoding: %s / %s" % (encs[key], t), "replay": {"dsl": d}})
+                        encs[key] = t
+
+        def hook(env, stepinfo):
+            from jobshoplab.utils.utils import get_max_allowed_time
+            if stepinfo is None:
+                st["codec"] = jsl.Codec(env.instance, True)
+                st["tmax"] = get_max_allowed_time(env.instance)
+                st["labels"] = labels_sx(st["codec"])
+                st["first_obs"] = copy.deepcopy(env.current_observation[0])
+                st["first_state"] = st["codec"].state(env.state.state)
+                check_obs(env, env.current_observation[0], False, "reset")
+                return
+            a, obs, rew, term, trunc, info = stepinfo
+            out["steps"] += 1
+            out["by_factory"][fac] += 1
+            check_obs(env, obs, bool(term), "step")
+
+        # bad actions: wrap the policy so that rejected actions are verified to leave the episode alone
+        try:
+            env, end, acts, et = run_episode_c14(d, cfg, pol, hook, out, prop)
+        except jsl.Unsupported:
+            end = "unsupported"
+            env = None
+        out["episodes"] += 1
+        out["ends"][end] += 1
+        out["sizes"]["%dx%d" % (feats["nj"], feats["nm"])] += 1
+        if env is not None and prop == "C14" and end in ("terminated", "truncated"):
+            # stepping a finished episode raises the dedicated error; reset returns to the initial situation
+            try:
+                env.step(1)
+                out["violations"].append({"kind": "contract:step_after_done", "detail": "no EnvDone", "replay": {"dsl": d}})
+            except EnvDone:
+                pass
+            except Exception as e:  # noqa
+                out["violations"].append({"kind": "contract:step_after_done", "detail": "raised %s" % type(e).__name__,
+                                          "replay": {"dsl": d}})
+            has_stoch = bool(st["codec"].sto_objs)
+            try:
+                obs0, info0 = env.reset()
+                out["resets"] += 1
+                c2 = jsl.Codec(env.instance, True)
+                okflags = (not env.terminated and not env.truncated and not env.done and len(env.history) == 0)
+                same_state = has_stoch or c2.state(env.state.state) == st["first_state"]
+                same_obs = has_stoch or all(np.array_equal(np.asarray(obs0[key]), np.asarray(st["first_obs"][key]))
+                                            for key in st["first_obs"])
+                if not (okflags and same_state and same_obs):
+                    out["violations"].append({"kind": "contract:reset", "detail": "reset did not return to the initial "
+                                              "situation (flags ok=%s state=%s obs=%s)" % (okflags, same_state, same_obs),
+                                              "replay": {"dsl": d}})
+            except Exception as e:  # noqa
+                out["violations"].append({"kind": "contract:reset", "detail": "reset raised %s" % type(e).__name__,
+                                          "replay": {"dsl": d}})
+    out["by_factory"] = dict(out["by_factory"])
+    out["sizes"] = dict(out["sizes"])
+    out["ends"] = dict(out["ends"])
+    drv.close()
+    return out
+
+
+def run_episode_c14(d, cfg, pol, hook, out, prop):
+    """Like batch.run_episode, but actions outside the action space must raise ActionOutOfActionSpace and leave
+    state, history and flags untouched."""
+    import trace
+    from jobshoplab.utils.exceptions import ActionOutOfActionSpace
+    try:
+        env = trace.make_env(d, cfg, None)
+    except Exception as e:  # noqa
+        return None, "compile:" + type(e).__name__, [], []
+    hook(env, None)
+    acts = []
+    end = "maxsteps"
+    for _ in range(300):
+        a = pol(env)
+        acts.append(a)
+        if a not in (0, 1):
+            out["bad_actions"] += 1
+            before = (env.state, len(env.history), env.terminated, env.truncated, env.done)
+            try:
+                env.step(a)
+                out["violations"].append({"kind": "contract:bad_action_accepted", "detail": "action %r accepted" % (a,),
+                                          "replay": {"dsl": d}})
+            except ActionOutOfActionSpace:
+                if (env.state, len(env.history), env.terminated, env.truncated, env.done) != before:
+                    out["violations"].append({"kind": "contract:bad_action_changed_episode", "detail": "rejected action "
+                                              "%r changed the episode" % (a,), "replay": {"dsl": d}})
+            except Exception as e:  # noqa
+                out["violations"].append({"kind": "contract:bad_action_error", "detail": "action %r raised %s instead of "
+                                          "ActionOutOfActionSpace" % (a, type(e).__name__), "replay": {"dsl": d},
+                                          "facts": {"exception": type(e).__name__}})
+            continue
+        try:
+            obs, rew, term, trunc, info = env.step(a)
+        except Exception as e:  # noqa
+            end = "raise:" + type(e).__name__
+            break
+        hook(env, (a, obs, rew, term, trunc, info))
+        if term or trunc:
+            end = "terminated" if term else "truncated"
+            break
+    return env, end, acts, []
+
+
+def _obs_check(ctx, prop):
+    rng = random.Random(ctx.seed + (14 if prop == "C14" else 15))
+    if ctx.quick():
+        args = [(rng.randrange(1 << 30), 16, (k % 2 == 1), prop) for k in range(4)]
+    else:
+        args = [(rng.randrange(1 << 30), 120, (k % 2 == 1), prop) for k in range(16)]
+    outs = _pool_map(_obs_worker, args)
+    tot = collections.Counter()
+    byf, sizes, ends = collections.Counter(), collections.Counter(), collections.Counter()
+    for o in outs:
+        for k in ("steps", "episodes", "bad_actions", "resets", "offer_sets", "compared_fields"):
+            tot[k] += o[k]
+        byf.update(o["by_factory"])
+        sizes.update(o["sizes"])
+        ends.update(o["ends"])
+        ctx.violations.extend(o["violations"])
+        for dd in o["disagreements"][:5]:
+            ctx.broken_correspondence.append("model and implementation differ in %s" % dd["where"])
+            ctx.coverage.setdefault("disagreement_samples", []).append(dd["replay"])
+    ctx.coverage.update({
+        "evaluations": tot["steps"], "distinct_nontrivial": tot["steps"],
+        "rule": "one evaluation = one observation returned by env.step/reset (generated instance incl. non-square and "
+                "10-14 job instances, every shipped factory usable with the event middleware), checked against the declared "
+                "space (Gymnasium contains() and exact bounds/integrality) and compared field by field with the extracted "
+                "Coq observation model (floats: equal after rounding the exact rational to float32) and with an independent "
+                "reading of the state indexed by job/machine number",
+        "traces_validated_against_impl": tot["steps"], "episodes": tot["episodes"], "steps_by_factory": dict(byf),
+        "instance_sizes": dict(sizes), "episode_end_histogram": dict(ends), "out_of_space_actions_tried": tot["bad_actions"],
+        "resets_checked": tot["resets"], "offer_sets_checked_for_collisions": tot["offer_sets"],
+        "fields_compared_with_model": tot["compared_fields"],
+    })
+    ctx.samples.append({"factories": FACTORIES, "note": "see instance_sizes / steps_by_factory"})
+    ctx.assumptions.append("float32 rounding is not modelled in Coq: the model is exact over Q and the harness rounds the "
+                           "exact value to float32 before comparing; Gymnasium's own contains() is used as is")
+
+
+def c14(ctx):
+    _obs_check(ctx, "C14")
+    ctx.violations = [v for v in ctx.violations if v["kind"] not in ("obs:not_faithful", "obs:offers_collide")]
+
+
+def c15(ctx):
+    _obs_check(ctx, "C15")
+    ctx.violations = [v for v in ctx.violations if v["kind"] in ("obs:not_faithful", "obs:offers_collide")]
+
+
+TABLE = {"C06": c06, "C19": c19, "C14": c14, "C15": c15}
